@@ -76,7 +76,7 @@ CHECKS = {
    note="Trusted: the reference map; pgfake for Postgres. Listings are compared for types without language scope. One recorded finding (empty session lists all sessions)."),
  "C11": dict(engine="refstore", category="exploration", design="§3 C11",
    technique="runtime monitor: exhaustive ordered-pair isolation probes by bit-indexed write/read rounds with unique values over an adversarial address alphabet on four backends, each hit confirmed by an isolated two-address probe and attributed to a mechanism computed from the two addresses; every round read a second time through the handle with every data type locked; snapshot equality for sessions saved and loaded through one shared persister object (plain and flushing, also after a refused request); birthday family of over-long ids when the store accepts them",
-   text="All ordered pairs of different (type, session, key) addresses from an adversarial alphabet (24 session ids x 24 keys x 2 sessioned types + 24 keys x 4 resource types = 1248 addresses quick; 60 x 60 alphabets thorough) are covered on mem, fs, fs-binary and the Postgres fake with 2*log2(n) rounds per backend: a written address must return its own value, an unwritten one nothing, an fs listing only its own session's records. A confusion through any mechanism other than the recorded ones (separator ambiguity of sid.key; legacy file-name fallback for resource types) is a new violation.",
+   text="All ordered pairs of different (type, session, key) addresses from an adversarial alphabet (24 session ids x 24 keys x 2 sessioned types + 24 keys x 4 resource types = 1248 addresses quick; 60 x 60 alphabets thorough) are covered on mem, fs, fs-binary and the Postgres fake with 2*log2(n) rounds per backend: a written address must return its own value, an unwritten one nothing, an fs or Postgres listing only its own session's records. A confusion through any mechanism other than the recorded ones (separator ambiguity of sid.key; legacy file-name fallback for resource types) is a new violation.",
    note="Addresses whose Put fails count as not accepted by the backend. Mechanism attribution is computed by the harness from the two addresses only."),
  "C12": dict(engine="crash", category="fault_enumeration", design="§3 C12",
    technique="runtime fault injection: real process death (strace inject SIGKILL on syscall entry) before every recorded file-system syscall of a real engine request on the fs store, plus torn writes synthesised from the recorded payloads; recovery oracle on every crash directory; every second pair with the store on another file system than the process' temporary directory",
